@@ -740,6 +740,13 @@ class _WState(object):
                     return [Item('int', fmt=fmt, field=self.field(fn.value), node=e, value=fn.value)]
             if norm(fn) == 'bytes' and not e.args:
                 return []
+            # b''.join((a, b, c)) / b''.join([a, b, c]): the parts one after the other
+            if isinstance(fn, ast.Attribute) and fn.attr == 'join' and isinstance(fn.value, ast.Constant) and fn.value.value == b'' and len(e.args) == 1 \
+                    and isinstance(e.args[0], (ast.Tuple, ast.List)) and not any(isinstance(x, ast.Starred) for x in e.args[0].elts):
+                out = []
+                for x in e.args[0].elts:
+                    out.extend(self.value_items(x))
+                return out
         if isinstance(e, ast.Name) and e.id in self.bufs and e.id not in self.env:
             return list(self.bufs[e.id])
         if isinstance(e, ast.Subscript) and isinstance(e.slice, ast.Slice):
@@ -811,6 +818,16 @@ class _RState(object):
         eng, fi = self.eng, self.fi
         if isinstance(s, ast.Expr) and isinstance(s.value, ast.Constant):
             return []
+        if isinstance(s, ast.Assign) and len(s.targets) == 1 and isinstance(s.value, ast.IfExp) and _touches(s.value, self.stream) \
+                and not _touches(s.value.test, self.stream) and isinstance(s.targets[0], (ast.Name, ast.Attribute)):
+            # x = <read> if T else <default>: the read happens exactly when T holds
+            def arm(v_):
+                a_ = ast.Assign(targets=[s.targets[0]], value=v_)
+                ast.copy_location(a_, s)
+                return a_
+            syn = ast.If(test=s.value.test, body=[arm(s.value.body)], orelse=[arm(s.value.orelse)])
+            ast.copy_location(syn, s)
+            return self.stmt(syn)
         if isinstance(s, ast.Assign) and len(s.targets) == 1:
             t = s.targets[0]
             if isinstance(t, ast.Name):
@@ -1001,6 +1018,24 @@ class _RState(object):
                 if nv == 1 and idx == 0:
                     return [Item('int', fmt='B', var='$', node=e, read_n=1, total=1)]
                 raise Undecided('indexing a ser_read result', s)
+        # int.from_bytes(ser_read(f, n), 'little' | 'big'[, signed=...])
+        if isinstance(e, ast.Call) and norm(e.func) == 'int.from_bytes' and 1 <= len(e.args) <= 2 and isinstance(e.args[0], ast.Call):
+            n = eng.is_ser_read(e.args[0], fi, self.stream)
+            if n is not None:
+                nv = self.f(n)
+                order = self.f(e.args[1]) if len(e.args) == 2 else None
+                signed = False
+                for kw in e.keywords:
+                    if kw.arg == 'byteorder':
+                        order = self.f(kw.value)
+                    elif kw.arg == 'signed':
+                        signed = self.f(kw.value)
+                code = {1: 'B', 2: 'H', 4: 'I', 8: 'Q'}.get(nv)
+                if code is None or order not in ('little', 'big') or signed not in (True, False):
+                    raise Undecided('int.from_bytes of %r bytes, order %r, signed %r' % (nv, order, signed), s)
+                code = code.lower() if signed else code
+                fmt = code if nv == 1 and not signed else ('<' if order == 'little' else '>') + code
+                return [Item('int', fmt=fmt, var='$', node=e, read_n=nv, total=nv)]
         if isinstance(e, (ast.ListComp, ast.GeneratorExp)) and len(e.generators) == 1 and not e.generators[0].ifs:
             it = e.generators[0].iter
             cnt = _count_of_iter(it, self.subst, self.stream)
